@@ -395,6 +395,10 @@ class T:
         # (x + c1) + c2  ->  x + (c1 + c2)   (plain Add only: the checked form keeps its own overflow flag)
         if op == "Add" and b.op == "const" and a.op == "bin" and a.args[0] == "Add" and a.args[2].op == "const" and a.args[3] == ty:
             return T.bin("Add", a.args[1], T.const(ty, a.args[2].args[1] + b.args[1]), ty)
+        if op in ("BitAnd", "BitOr", "BitXor") and bits:
+            for x_, k_ in ((a, cb), (b, ca)):
+                if k_ == 0 and isinstance(k_, int):
+                    return T.const(ty, 0) if op == "BitAnd" else x_       # x & 0 = 0 ; x | 0 = x ^ 0 = x
         if base in ("Eq", "Ne") and op == base:
             r = _struct_eq(a, b, 0)
             if r is not None:
